@@ -31,6 +31,16 @@ def gen_block(rng, zname, idx, fams):
         lo = [r2(rng, -2.0, 0.5) for _ in idx]
         b['lo'] = lo
         b['hi'] = [round(l + r2(rng, 0.5, 2.5), 2) for l in lo]
+        if rng.random() < 0.3:
+            # one-sided components: an end of the interval sits exactly at zero (compilers treat zero bounds specially)
+            for j in range(k):
+                u = rng.random()
+                if u < 0.4:
+                    b['lo'][j], b['hi'][j] = -r2(rng, 0.5, 2.5), 0.0
+                elif u < 0.7:
+                    b['lo'][j], b['hi'][j] = 0.0, r2(rng, 0.5, 2.5)
+        if rng.random() < 0.3:
+            b['form'] = 'scalar'        # one scalar bound per component instead of two vector comparisons
         return b
     centered = rng.random() < 0.5
     if centered:
